@@ -66,7 +66,7 @@ KINDS = [
     "GetUnitName", "FindUnitCase", "CheckValueForCategory", "quantity.GetValidUnits", "ChangeScalars", "compare",
     "derived request (tuple pairs)", "derived request (list overload, tuple items)", "arithmetic on a composition", "derived request (one category at an exponent)",
     "Unknown-type conversions", "Unknown-type values", "ObtainQuantity(u,c,caption)", "ObtainQuantity(u,None,caption)", "GetUnits()/GetInfos()", "GetInfo", "FindSimilarUnitMatches", "IsValidCategory/CheckQuantityType", "quantity getters", "db.Sum/Multiply",
-    "Unknown-type values (the caller keeps them)", "Create{Area,Volume}QuantityFromLengthQuantity",
+    "Unknown-type values (the caller keeps them)", "Create{Area,Volume}QuantityFromLengthQuantity", "questions about the quantity without a unit",
 ]  # fmt: skip
 
 
@@ -247,6 +247,16 @@ def run_query(db, q):
             for helper in (CreateVolumeQuantityFromLengthQuantity, CreateAreaQuantityFromLengthQuantity):
                 try:
                     r.append(helper(lq))
+                except Exception as e:
+                    r.append(H.family(e))
+        elif kind == "questions about the quantity without a unit":
+            # the unit-less quantity has the empty string as category and unit: asking about it registers nothing
+            es = Scalar.CreateEmptyScalar(x)
+            r = []
+            for ask in (lambda: es.GetValidUnits(), lambda: db.GetValidUnits(""), lambda: es.IsValid(), lambda: es.GetQuantity().GetValidUnits(), lambda: db.IsValidCategory(""), lambda: sorted(c_ for c_ in db.IterCategories() if not c_),
+                        lambda: db.GetCategoryInfo("").quantity_type, lambda: db.GetDefaultUnit(""), lambda: Array.CreateEmptyArray([x]).GetValidUnits(), lambda: es.GetCategory()):  # fmt: skip
+                try:
+                    r.append(ask())
                 except Exception as e:
                     r.append(H.family(e))
         elif kind == "Unknown-type values (the caller keeps them)":
